@@ -1140,6 +1140,36 @@ class Interp:
                 arrive(succ, s2)
         return res
 
+    def _fork_named_condition(self, n, st, vals):
+        """`const bool ok = a >= 0 && a <= 11;` -- a condition given a name: split the state into the cases ok / not ok with what
+        the condition implies in each (the flag holds one value per state, so a later `if (ok)` selects the right case).
+        Only for side-effect-free conditions; returns the list of states or None."""
+        fn = self.fn
+        if len(n['vars']) != 1:
+            return None
+        v = n['vars'][0]
+        if type_range(v['tC']) != (0, 1) or 'bool' not in v['tC'] or not isinstance(v.get('init'), int):
+            return None
+        root = fn.nodes.get(fn.strip(v['init']))
+        if root is None or root.get('k') not in ('binop', 'unop') or root.get('op') not in ('&&', '||', '!', '<', '<=', '>', '>=', '==', '!='):
+            return None
+        for x in fn.subtree(v['init']):
+            m = fn.nodes[x]
+            k = m.get('k')
+            if k in ('assign', 'new', 'delete', 'lambda', 'construct', 'throw') or (k == 'unop' and m.get('op') in ('++', '--')):
+                return None
+            if k == 'call' and 'cv' not in m and m.get('q') not in PURE_CALLS:
+                return None
+        key = ('v', v['d'])
+        if key not in self.kr:
+            return None
+        outs = []
+        for sense in (True, False):
+            for s2 in self.refine(v['init'], sense, st, {}, _Everything())[:16]:
+                s2[key] = (1, 1) if sense else (0, 0)
+                outs.append(s2)
+        return outs
+
     def _block(self, b, st0):
         """Interpret block b from state st0; yields (state, successor block)."""
         fn = self.fn
@@ -1194,6 +1224,15 @@ class Interp:
                         vals[e] = v0
                         continue
                 vals[e] = self.eval(e, st, vals)
+                if k == 'decl':
+                    alts = self._fork_named_condition(n, st, vals)
+                    if alts is not None:
+                        for s2 in alts[1:]:
+                            pending.append((i, s2, dict(vals)))
+                        if not alts:
+                            dead = True
+                            break
+                        st = alts[0]
                 if self._dead:              # a callee that cannot return normally for these arguments
                     self._dead = False
                     res.throws.append((e, self.marks(st)))
